@@ -156,25 +156,6 @@ end
 theorem AllN.imp {P Q : Expr → Prop} (h : ∀ x, P x → Q x) {e : Expr} (he : AllN P e) : AllN Q e :=
   AllN.imp2 (fun x hx => h x hx.root) e he
 
-/-! ### the region `_skip` walks through -/
-
-/-- `_skip`'s walk from `e` (through groups, alternatives, references and — conservatively —
-    embedded rule nodes) meets no `Repeat` and no `SkipUntil`; `false` when the budget runs out -/
-def regG (G : Grammar) : Nat → Expr → Bool
-  | 0, _ => false
-  | k + 1, e =>
-    match e with
-    | .group x _ => regG G k x
-    | .choice es => es.all (regG G k)
-    | .rep _ => false
-    | .skipUntil _ => false
-    | .ident n _ =>
-      match G.lookup n with
-      | some r => regG G k r.body
-      | none => true
-    | .rule _ _ _ b => regG G k b
-    | _ => true
-
 def NoTrivia (G : Grammar) : Prop :=
   G.fusedSkip = none ∧ G.lookup "WHITESPACE" = none ∧ G.lookup "COMMENT" = none
 
@@ -185,7 +166,6 @@ def SkipPat (G : Grammar) (a : Bool) (e : Expr) (subs : List Str) : Prop :=
     (∃ m sm, anyN = .rule "ANY" m sm .anyB ∧ hasBit m SILENT = true) ∧
     (x = inner ∨ ∃ n m sm, inner = .rule n m sm x) ∧
     Opt.skipCollect G.rules k x [] = some subs ∧
-    (∃ k', regG G k' x = true) ∧
     (a = true ∨ NoTrivia G)
 
 /-- ranges are not reversed -/
